@@ -321,6 +321,17 @@ class Design:
     return lines
 
   def source(self):
+    """the module text of the design.  With `self.base` (another, smaller design) the top class is declared as a SUBCLASS of
+    the base design's top class with a construct() of its own; update blocks of the two classes share names (blk_0, blk_1,
+    ...) but not sources, and one instance of the base class is elaborated when the module is imported — whatever pymtl3
+    caches per class must not leak from the parent class into the subclass."""
+    base = getattr(self, 'base', None)
+    if base is None: return self._source()
+    own = self._source(parent=base.cls_name('')).split('\n')
+    return '\n'.join(base._source().split('\n') + [''] + own[1:] +
+                     ['', f'_pv_base = {base.cls_name("")}()', '_pv_base.elaborate()', ''])
+
+  def _source(self, parent='Component'):
     out = ['from pymtl3 import *', '']
     types = []
     for sg in self.sigs:
@@ -331,7 +342,7 @@ class Design:
     order = sorted([c for c in self.comps], key=lambda c: (-c.count('.') - (1 if c else 0), c))
     for comp in order:
       cls = self.cls_name(comp)
-      out += [f'class {cls}( Component ):', '  def construct( s ):']
+      out += [f"class {cls}( {parent if comp == '' else 'Component'} ):", '  def construct( s ):']
       lists_done = set()
       for s in self.sigs:
         if s.comp != comp or s.name in ('reset', 'clk'): continue
@@ -371,9 +382,11 @@ class Design:
   def cls_name(self, comp):
     return f'Gen{self.uid}_{comp.replace(".", "_") or "Top"}'
 
-def generate(rng, max_blocks=8, with_children=True, with_regs=True, wide=False, max_regs=3, min_regs=0, structs=None, many_wires=False):
+def generate(rng, max_blocks=8, with_children=True, with_regs=True, wide=False, max_regs=3, min_regs=0, structs=None, many_wires=False, allow_base=True):
   """an acyclic, single-writer design"""
   d = Design(rng, next(_uid))
+  if allow_base and rng.random() < 0.2:
+    d.base = generate(rng, max_blocks=4, with_children=False, max_regs=2, allow_base=False)
   W = lambda: rng.choice([1, 2, 3, 4, 4, 8, 8, 8, 12, 16] + ([32, 64] if wide else []))
   top_reset = d.new_sig('', 'reset', 1, 'in')
   if structs is None: structs = rng.random() < 0.5
